@@ -158,7 +158,7 @@ CLAIMS = {
                 "pass, clamping and no possibly-zero negated slice bound in head/tail/sample, insert delivers its item on every CFG path, "
                 "caller-supplied dicts are coerced before reaching the as-is constructor, sort is multi-pass stable with reversed key "
                 "order / reverse=dir<0 / None-flag keys / validated directions, unique yields under a not-seen guard that records the key. "
-                "Not decided: full sequence equality with list operations. Added later: the constructor converts every item unless the caller passes as_is; unique records the key values themselves (no lossy reduction); guard-clause forms accepted. Round 7: every returning path of a decorator wrapper calls the wrapped function; fill_missing_keys yields only after the fill loop or under a nothing-missing test. Round 8: per-call memos keyed by an order-blind summary; the index of insert reaches list.insert unadjusted. Round 9: language-trap lints (one-shot iterators consumed twice, closures over loop variables, mutable defaults, fromkeys with a mutable value, starred itemgetter results used as sequences) over the property's anchor files. Round 10: an explicit validation of insert's index rejects no integer (decided exactly). Round 11: the component of the sort key after the None flag is the value itself.",
+                "Not decided: full sequence equality with list operations. Added later: the constructor converts every item unless the caller passes as_is; unique records the key values themselves (no lossy reduction); guard-clause forms accepted. Round 7: every returning path of a decorator wrapper calls the wrapped function; fill_missing_keys yields only after the fill loop or under a nothing-missing test. Round 8: per-call memos keyed by an order-blind summary; the index of insert reaches list.insert unadjusted. Round 9: language-trap lints (one-shot iterators consumed twice, closures over loop variables, mutable defaults, fromkeys with a mutable value, starred itemgetter results used as sequences) over the property's anchor files. Round 10: an explicit validation of insert's index rejects no integer (decided exactly). Round 11: the component of the sort key after the None flag is the value itself. Round 13: filter / filter_out compare the item's extracted value as stored (no wrapping of the item side).",
         "note": TRUST,
         "technique": "CFG path rule (must-yield), interval lower bounds for slice bounds, branch-fact sibling comparison, coercion-idiom typestate",
     },
